@@ -289,6 +289,74 @@ pub fn run(ctx: &mut Ctx) {
     }
   }
   r.ctx.sample("PUSH/POP/CALL/CALL cc/RET/RET cc/RETI/RST at every SP value 0x0000..0xFFFF (stack bytes land on ROM, VRAM, I/O, IE, and wrap at both ends)");
+  // ---- P6: the same instructions through the interpreter's block runner (the path every
+  // block in RAM and every block of the interpreter-only build takes): one instruction,
+  // followed by a HALT where it does not end the block itself, at every placement
+  {
+    let mut n = 0u64;
+    let mut outside = 0u64;
+    for first in 0..=255u16 {
+      let u = unit;
+      unit += 1;
+      if !r.ctx.mine_sub(u) {
+        continue;
+      }
+      let seconds: Vec<u8> = if first == 0xcb { vec![0x06, 0x46, 0x86, 0xc6, 0x37, 0x7f] } else { vec![0] };
+      let mut rng = Rng::from(&[seed, 66, first as u64]);
+      for &second in seconds.iter() {
+        let info = refcpu::info(first as u8, second);
+        if info.undefined {
+          continue;
+        }
+        let len = info.len as u16;
+        for (at, tag) in placements(len) {
+          for &fl in [0x0u8, 0xf, 0x5].iter() {
+            r.ctx.intent2(u, at as u64);
+            let (b1, b2) = if first == 0xcb {
+              (second, 0)
+            } else {
+              let t = *rng.pick(&EDGE16);
+              match len {
+                2 => (rng.edgy_u8(), 0),
+                _ => (t as u8, (t >> 8) as u8),
+              }
+            };
+            let bytes = [first as u8, b1, b2];
+            if !opcmp::place_bytes(&mut r.mem, at, &bytes[..len as usize]) {
+              continue;
+            }
+            let next = at.wrapping_add(len);
+            // (the block can only go on where the emulator can execute: ROM, work RAM, high RAM)
+            let executable = next < 0x8000 || (0xc000..0xe000).contains(&next) || (0xff80..0xffff).contains(&next);
+            if !info.block_end && (!executable || !opcmp::place(&mut r.mem, next, 0x76)) {
+              continue;
+            }
+            let ri = base_regs(fl, 0xdff0);
+            support::set_regs(&mut r.regs, &ri);
+            r.regs.ip = at as u32;
+            match opcmp::exec_block_compare(&mut r.mem, &mut r.regs) {
+              None => outside += 1,
+              Some(ms) => {
+                n += 1;
+                r.evaluations += 1;
+                for m in ms.iter() {
+                  let name = if first == 0xcb { format!("CB{:02X}", second) } else { format!("{:02X}", first) };
+                  r.ctx.violation(
+                    &format!("C06:block-runner:op={}:{}:{}{}", name, m.field, m.kind, if tag.is_empty() { String::new() } else { format!(":{}", tag) }),
+                    &format!("{} at {:04X} run through interpreter::run_code_block (flags {:X}0): {} is {:X}, the model says {:X}", support::hexbytes(&bytes[..len as usize]), at, fl, m.field, m.got, m.want),
+                  );
+                }
+              }
+            }
+          }
+        }
+      }
+      r.ctx.distinct_key(crate::rt::hash_words(&[24, first as u64]));
+    }
+    r.ctx.count("cases:block-runner", n);
+    r.ctx.count("cases:block-runner:outside-domain", outside);
+    r.ctx.sample("every encoding at every placement once more through interpreter::run_code_block (the instruction, then a HALT unless it ends the block): registers, PC (wrapped to 16 bits) and cycles vs the model");
+  }
   let _ = unit;
   r.ctx.count("evaluations", r.evaluations);
 }
